@@ -265,3 +265,6 @@ _rep("C07", "PortsTrace judges both tables port by port.", "PortsTrace judges bo
 _rep("C18", "a repeated R13 write restarts the envelope", "for both chip types (AY, YM) a slow attack ramp is a rising staircase of 32 settled amplitudes and fixed volume v sounds like envelope level 2v+1; a repeated R13 write restarts the envelope")
 
 _rep("C05", "exactly one INT service per frame for a polling program).", "exactly one INT service per frame for a polling program); UlaProofs.tla proves the conservation step of the same Tick definition with TLAPS for every frame length.")
+
+_rep("C12", "random command histories", "random command histories (with bursts of STOP / PLAY / STOP a few hundred T apart; the deck must report stopped after every STOP)")
+_rep("C14", "and into an emulator of the other model;", "and into an emulator of the other model, through assets that hand the file out whole or in pieces (mouse chunk absent / none / AMX / Kempston);")
